@@ -216,6 +216,24 @@ def check_raw(case, rec):
     except Exception as e:      # noqa
         rec.violation('raw:raised', describe_exc(e), key=exc_key(e))
         return
+    # conversions of windows of one raw array, one after the other, each against the exact time
+    d0 = tf['g']['ts'][:]
+    if len(d0) >= 2:
+        k = len(d0) // 2
+        for lo, hi in ((0, k), (k, len(d0)), (0, len(d0)), (1, len(d0))):
+            try:
+                conv = d0[lo:hi].as_datetime64('us').astype('int64')
+            except Exception as e:      # noqa
+                rec.violation('raw:raised', describe_exc(e), key=exc_key(e))
+                break
+            if len(conv) != hi - lo:
+                rec.violation('window_conversion', 'as_datetime64 of window [%d:%d] has %d values' % (lo, hi, len(conv)))
+                break
+            for i, (sec, frac) in enumerate(want[lo:hi]):
+                if abs(Fraction(int(conv[i])) - exact_units(sec, frac, 10 ** 6)) > SLACK:
+                    rec.violation('window_conversion', 'as_datetime64 of window [%d:%d] element %d gives %d us, exact %s' % (
+                        lo, hi, i, int(conv[i]), float(exact_units(sec, frac, 10 ** 6))))
+                    break
     for name, f in (('read', tf), ('defragment', tf2)):
         ch = f['g']['ts']
         d = ch[:]
